@@ -1117,3 +1117,78 @@ add('C08', 'breaker', 'frozenset-uses-base', [(P, '''    constructor = type(valu
     return pretty_call_alt(ctx, constructor)''')], 'C08')
 add('C08', 'twin', 'nativeness-is-chain', [(P, 'is_native_type = constructor in (str, bytes)', 'is_native_type = constructor is str or constructor is bytes')])
 add('C08', 'twin', 'base-repr-direct', [(P, 'doc = annotate(Token.NUMBER_INT, _builtin_repr(int, value))', 'doc = annotate(Token.NUMBER_INT, int.__repr__(value))')])
+
+# ----------------------------------------------------------------------------- C01
+add('C01', 'breaker', 'one-tuple-no-dangle', [(P, '''        if len(value) == 1:
+            dangle = True''', '''        if len(value) == 1:
+            dangle = False''')], 'C01.b')
+add('C01', 'breaker', 'dangle-for-lists-too', [(P, '''    if isinstance(value, list):
+        left, right = LBRACKET, RBRACKET
+    elif''', '''    if isinstance(value, list):
+        left, right = LBRACKET, RBRACKET
+        dangle = len(value) == 1
+    elif''')], 'C01.b')
+add('C01', 'breaker', 'dangle-ignored-by-builder', [(P, '''    if dangle and not comma_before_last_comment:
+        parts.append(COMMA)''', '''    if dangle and not comma_before_last_comment and len(docs) > 1:
+        parts.append(COMMA)''')], 'C01.b')
+add('C01', 'breaker', 'empty-set-braces', [(P, '''        else:
+            # E.g. set() or SubclassOfSet()
+            return pretty_call_alt(ctx, constructor)''', '''        else:
+            # E.g. set() or SubclassOfSet()
+            if is_native_type:
+                return concat([left, right])
+            return pretty_call_alt(ctx, constructor)''')], 'C01.c')
+add('C01', 'breaker', 'tuple-brackets-swapped', [(P, '''    elif isinstance(value, tuple):
+        left, right = LPAREN, RPAREN''', '''    elif isinstance(value, tuple):
+        left, right = LBRACKET, RBRACKET''')], 'C01.a')
+add('C01', 'breaker', 'inf-through-repr', [(P, '''    if value == INF_FLOAT:
+        return pretty_call_alt(ctx, constructor, args=('inf', ))
+    elif value == NEG_INF_FLOAT:''', '''    if value == NEG_INF_FLOAT:''')], 'C01.d')
+add('C01', 'breaker', 'nan-test-dropped', [(P, '''    elif math.isnan(value):
+        return pretty_call_alt(ctx, constructor, args=('nan', ))
+''', '')], 'C01.d')
+add('C01', 'breaker', 'neg-inf-prints-inf', [(P, "return pretty_call_alt(ctx, constructor, args=('-inf', ))", "return pretty_call_alt(ctx, constructor, args=('inf', ))")], 'C01.d')
+add('C01', 'breaker', 'keys-reversed', [(P, '''        if ctx.sort_dict_keys
+        else d.keys()
+    )''', '''        if ctx.sort_dict_keys
+        else reversed(list(d.keys()))
+    )''')], 'C01.e')
+add('C01', 'breaker', 'sorted-reverse', [(P, 'sorted(d.keys(), key=_AlwaysSortable)', 'sorted(d.keys(), key=_AlwaysSortable, reverse=True)')], 'C01.e')
+add('C01', 'breaker', 'bool-inverted', [(P, "doc = annotate(Token.KEYWORD_CONSTANT, 'True' if value else 'False')", "doc = annotate(Token.KEYWORD_CONSTANT, 'False' if value else 'True')")], 'C01.f')
+add('C01', 'breaker', 'dict-colon-missing-for-last', [(P, '''                concat([
+                    kdoc,
+                    concat([COLON, ' ']),
+                    vdoc,
+                    NIL if last else COMMA,
+                    NIL if last else LINE,
+                ]),''', '''                concat([
+                    kdoc,
+                    concat([COLON if not last else NIL, ' ']),
+                    vdoc,
+                    NIL if last else COMMA,
+                    NIL if last else LINE,
+                ]),''')], 'C01.a')
+add('C01', 'breaker', 'bool-registered-as-int', [(P, '''@register_pretty(bool)
+def pretty_bool(value, ctx):''', '''def pretty_bool(value, ctx):''')], 'C01.g')
+add('C01', 'breaker', 'native-int-wrapped', [(P, '''    doc = annotate(Token.NUMBER_INT, _builtin_repr(int, value))
+    if constructor is int:
+        return doc
+''', '''    doc = annotate(Token.NUMBER_INT, _builtin_repr(int, value))
+''')], 'C01.c')
+add('C01', 'twin', 'left-right-dict-table', [(P, '''    if isinstance(value, list):
+        left, right = LBRACKET, RBRACKET
+    elif isinstance(value, tuple):
+        left, right = LPAREN, RPAREN
+        if len(value) == 1:
+            dangle = True
+    elif isinstance(value, set):
+        left, right = LBRACE, RBRACE''', '''    if isinstance(value, list):
+        left = LBRACKET
+        right = RBRACKET
+    elif isinstance(value, tuple):
+        left = LPAREN
+        right = RPAREN
+        dangle = len(value) == 1
+    elif isinstance(value, set):
+        left = LBRACE
+        right = RBRACE''')])
